@@ -113,9 +113,8 @@ func (env *Env) ev(x ast.Expr) Term {
 		}
 		saved := env.e.vc.quiet
 		env.e.vc.quiet = true
-		r := env.e.binopTerms(n.Op, a, b, rt, "true", token.NoPos, a.T)
-		env.e.vc.quiet = saved
-		return r
+		defer func() { env.e.vc.quiet = saved }()
+		return env.e.binopTerms(n.Op, a, b, rt, "true", token.NoPos, a.T)
 	case *ast.SelectorExpr:
 		// package-qualified name?
 		if id, ok := n.X.(*ast.Ident); ok {
@@ -1154,12 +1153,14 @@ func (env *Env) specCall(sf *SpecFunc, argx []ast.Expr) Term {
 			c.old = c.heap
 			savedNoName, savedQuiet := env.e.noName, vc.quiet
 			env.e.noName, vc.quiet = true, true
-			for i, ax := range sf.Axioms {
-				t := c.ev(ax)
-				vc.def(t.S)
-				vc.assumptions["definitional axiom of ghost function "+sf.Name+": "+sf.AxiomSrc[i]] = true
-			}
-			env.e.noName, vc.quiet = savedNoName, savedQuiet
+			func() {
+				defer func() { env.e.noName, vc.quiet = savedNoName, savedQuiet }()
+				for i, ax := range sf.Axioms {
+					t := c.ev(ax)
+					vc.def(t.S)
+					vc.assumptions["definitional axiom of ghost function "+sf.Name+": "+sf.AxiomSrc[i]] = true
+				}
+			}()
 		}
 	}
 	var rt types.Type
@@ -1256,8 +1257,11 @@ func (env *Env) recSpecCall(sf *SpecFunc, args []Term) Term {
 	}
 	savedNoName, savedQuiet := env.e.noName, vc.quiet
 	env.e.noName, vc.quiet = true, true
-	body := c.ev(sf.Body)
-	env.e.noName, vc.quiet = savedNoName, savedQuiet
+	var body Term
+	func() {
+		defer func() { env.e.noName, vc.quiet = savedNoName, savedQuiet }()
+		body = c.ev(sf.Body)
+	}()
 	norm := normalizeBound(body.S)
 	key := sf.Name + "|" + norm
 	if vc.recInst == nil {
